@@ -33,7 +33,18 @@ var tokenRe = regexp.MustCompile(`[^\s()]+`)
 // axioms whose symbols occur, the path condition, and the negated goal.
 func buildQuery(sp *Specs, o *Obligation, models bool) string {
 	var body strings.Builder
-	for _, a := range renderPC(o.Groups, o.PC) {
+	// small path conditions are rendered inline; large ones (chains of joins) with one definition per join
+	r := &pcRenderer{groups: o.Groups, done: map[string][]string{}}
+	asserts := r.pc(o.PC)
+	if r.size < 100000 {
+		asserts = renderPC(o.Groups, o.PC)
+	} else {
+		for _, d := range r.defs {
+			body.WriteString(d)
+			body.WriteString("\n")
+		}
+	}
+	for _, a := range asserts {
 		body.WriteString("(assert ")
 		body.WriteString(a)
 		body.WriteString(")\n")
@@ -229,6 +240,8 @@ func (s *Solver) solveWith(sp *Specs, o *Obligation, which []int, res *SolveResu
 		res.Status, res.Backend = status, solvers[0].name
 		if status != "unsat" {
 			res.Status = "not-provable"
+		} else if os.Getenv("GCV_KEEP") != "" {
+			keep = true
 		}
 		return res
 	}
